@@ -367,7 +367,29 @@ func verifOpen(name string) (*verifFile, error) {
 func verifRename(from, to string) error {
 	verifStep(true, "rename", from, to)
 	verifLockCheck(from, "rename")
+	var oldNames []string
+	isCommit := filepath.Base(to) == "tables.list"
+	if isCommit && verifNative.monitors["locks"] {
+		oldNames = verifListNames(filepath.Dir(to))
+	}
 	err := os.Rename(from, to)
+	if err == nil && isCommit && verifNative.monitors["locks"] {
+		// a commit that drops tables from the list (a compaction) must hold their locks
+		kept := map[string]bool{}
+		for _, n := range verifListNames(filepath.Dir(to)) {
+			kept[n] = true
+		}
+		for _, n := range oldNames {
+			if kept[n] {
+				continue
+			}
+			lk := filepath.Join(filepath.Dir(to), n+".lock")
+			owner, ok := verifSched.lockOwner[lk]
+			if _, serr := os.Stat(lk); serr != nil || !ok || owner != verifCurProc() {
+				verifMonitorHit("commit-drops-table-without-its-lock", n)
+			}
+		}
+	}
 	if err == nil {
 		if o, ok := verifSched.lockOwner[from]; ok {
 			delete(verifSched.lockOwner, from)
